@@ -24,7 +24,7 @@ Record chan := mkChan { ch_q : list Z; ch_senders : N; ch_bound : option N; ch_r
 Inductive tline := L (tag : N) (args : list Z).
 Definition T_OP := 1. Definition T_CB := 2. Definition T_BS := 3. Definition T_BH := 4. Definition T_IDLE := 5.
 Definition T_DISP := 6. Definition T_BATCH := 7. Definition T_STATS := 8. Definition T_EP := 9. Definition T_PANIC := 10.
-Definition T_BHEV := 11. Definition T_SLOT := 12. Definition T_LIFE := 13. Definition T_WHEEL := 14. Definition T_DROP := 15.
+Definition T_REGOP := 16. Definition T_BHEV := 11. Definition T_SLOT := 12. Definition T_LIFE := 13. Definition T_WHEEL := 14. Definition T_DROP := 15.
 
 (* results of operations *)
 Inductive res := ROk | RInvalid | RIo | ROther.
@@ -259,6 +259,13 @@ Definition set_obj_src (s : st) (o : N) (x : src) : st :=
   end.
 Definition is_running (s : st) (o : N) : bool := match running s with Some (r, _) => r =? o | None => false end.
 
+(* instrumented composite sources log their register/reregister/unregister calls *)
+Definition regop (s : st) (o : N) (x : src) (kind : Z) (ok : bool) : st :=
+  match x with
+  | SComp _ _ _ => emit s (L T_REGOP [zN o; kind; if ok then 0%Z else 1%Z])
+  | _ => s
+  end.
+
 (* register: borrow_mut (panics when running); the lifecycle entry is recorded after the source registered *)
 Definition disp_register (s : st) (o : N) (slot_tok : tok) : res * st :=
   match objs s o with
@@ -270,8 +277,9 @@ Definition disp_register (s : st) (o : N) (slot_tok : tok) : res * st :=
         let s2 := set_obj_src (set_en s e1) o x' in
         match r with
         | RRPanic => (ROther, panic s2 P_SUBID)
-        | RRErr => (RIo, s2)
-        | RROk => (ROk, if src_lc x' then set_lifecycle s2 (lc_register (lifecycle s2) (forget_sub_id slot_tok)) else s2)
+        | RRErr => (RIo, regop s2 o x' 0%Z false)
+        | RROk => let s3 := regop s2 o x' 0%Z true in
+                  (ROk, if src_lc x' then set_lifecycle s3 (lc_register (lifecycle s3) (forget_sub_id slot_tok)) else s3)
         end
   end.
 (* reregister: try_borrow_mut; false = deferred *)
@@ -285,8 +293,9 @@ Definition disp_reregister (s : st) (o : N) (slot_tok : tok) : res * bool * st :
         let s2 := set_obj_src (set_en s e1) o x' in
         match r with
         | RRPanic => (ROther, true, panic s2 P_SUBID)
-        | RRErr => (RIo, true, s2)
-        | RROk => (ROk, true, if src_lc x' then set_lifecycle s2 (lc_register (lifecycle s2) (forget_sub_id slot_tok)) else s2)
+        | RRErr => (RIo, true, regop s2 o x' 1%Z false)
+        | RROk => let s3 := regop s2 o x' 1%Z true in
+                  (ROk, true, if src_lc x' then set_lifecycle s3 (lc_register (lifecycle s3) (forget_sub_id slot_tok)) else s3)
         end
   end.
 (* unregister: try_borrow_mut; the lifecycle entry is dropped whatever the source answers *)
@@ -297,7 +306,7 @@ Definition disp_unregister (s : st) (o : N) (reg_tok : tok) : res * bool * st :=
       if is_running s o then (ROk, false, s)
       else
         let '(ok, x', e1) := src_unregister (en s) (o_src ob) in
-        let s2 := set_obj_src (set_en s e1) o x' in
+        let s2 := regop (set_obj_src (set_en s e1) o x') o x' 2%Z ok in
         let s3 := if src_lc x' then set_lifecycle s2 (lc_unregister (lifecycle s2) reg_tok) else s2 in
         ((if ok then ROk else RIo), true, s3)
   end.
@@ -741,13 +750,14 @@ Definition lc_lookup (s : st) (t : tok) : option N :=
   | None => None
   end.
 
-(* before_sleep loop: 0 = Ok, 1 = Err returned, 2 = panicked *)
-Fixpoint before_sleep_loop (bscr : bscripts) (s : st) (l : list tok) : st * N :=
+(* before_sleep loop: all hooks Ok / one returned Err / unreachable!() *)
+Inductive bsres := BSOk | BSErr | BSPanic.
+Fixpoint before_sleep_loop (bscr : bscripts) (s : st) (l : list tok) : st * bsres :=
   match l with
-  | [] => (s, 0)
+  | [] => (s, BSOk)
   | t :: r =>
       match lc_lookup s t with
-      | None => (panic s P_UNREACHABLE, 2)
+      | None => (panic s P_UNREACHABLE, BSPanic)
       | Some o =>
           let k := bsn s o in
           let code := nth k (bscr o) 0 in
@@ -762,7 +772,7 @@ Fixpoint before_sleep_loop (bscr : bscripts) (s : st) (l : list tok) : st * N :=
                  | Some tk => before_sleep_loop bscr (set_synth s1 (synth s1 ++ [mkEv (pack tk) (mkRd true false)])) r
                  | None => before_sleep_loop bscr s1 r
                  end
-          | _ => (s1, 1)
+          | _ => (s1, BSErr)
           end
       end
   end.
@@ -825,9 +835,9 @@ Definition poll (e : env) (t : Z) (order : list N) : list pevent * env :=
 Definition dispatch (scr : scripts) (bscr : bscripts) (s : st) (t : Z) (order : list N) : st :=
   let '(s1, bs) := before_sleep_loop bscr s (lifecycle s) in
   match bs with
-  | 2 => s1
-  | 1 => emit s1 (L T_DISP [t; DISP_ERR])
-  | _ =>
+  | BSPanic => s1
+  | BSErr => emit s1 (L T_DISP [t; DISP_ERR])
+  | BSOk =>
       let (polled, e2) := poll (en s1) t order in
       let s3 := emit (set_en s1 e2) (L T_BATCH (zsort (map ev_code polled))) in
       let (s4, ok) := before_handle_loop s3 (lifecycle s3) polled in
